@@ -100,8 +100,10 @@ def strip_inert(tree: ast.AST) -> int:
 
 
 class Repo:
-    def __init__(self, root: str | None = None):
+    def __init__(self, root: str | None = None, full_normalise: bool | None = None):
         self.root = root or REPO
+        self.full_normalise = bool(os.environ.get("BSA_FULL_NORMALISE")) if full_normalise is None else full_normalise
+        self.identical = 0  # modules byte-identical to the reference (normaliser skipped unless full_normalise)
         self.pkg = os.path.join(self.root, PKG_REL)
         if not os.path.isdir(self.pkg):
             raise AnalysisError(f"package directory {self.pkg} not found")
@@ -148,6 +150,15 @@ class Repo:
                 strip_inert(tree)
                 from . import alpha, normalize
 
+                sha = hashlib.sha256(raw).hexdigest()
+                if normalize.ref().get("digests", {}).get(name) == sha and not self.full_normalise:
+                    # byte-identical to the module the reference table was generated from: the normaliser is the identity there
+                    # (that is what the self-check below establishes whenever the full pipeline runs - always in the thorough tier)
+                    self.identical += 1
+                    m = Module(name, path, src, tree, sha)
+                    self.modules[name] = m
+                    self._index(m, tree, prefix="", cls=None, parent=None)
+                    continue
                 st = normalize.normalise_module(tree, name)
                 if any(st.values()):
                     strip_inert(tree)
@@ -266,4 +277,7 @@ class Repo:
             "locals_renamed_back": {k: m for k, m in self.renamed},
             "shapes_put_back": self.reshaped,
             "refactors_undone": dict(self.normalised),
+            "modules_identical_to_reference": self.identical,
+            "normaliser": "full pipeline on every module (identity self-check armed)" if self.full_normalise
+            else "skipped on modules byte-identical to the reference table's digests, full pipeline on the others",
         }
